@@ -314,6 +314,19 @@ impl Acc {
     }
 }
 
+/// a sample for the evidence file; very long cases (20k-element histories) are abbreviated
+fn sample_value(js: &str) -> Value {
+    if js.len() > 3000 {
+        let mut end = 1200;
+        while !js.is_char_boundary(end) {
+            end -= 1;
+        }
+        json!({"abbreviated": true, "json_chars": js.len(), "json_head": &js[..end]})
+    } else {
+        serde_json::from_str(js).unwrap_or(Value::Null)
+    }
+}
+
 fn record<C: Serialize>(acc: &mut Acc, case: &C, obs: &Obs) {
     acc.evaluations += 1;
     for c in &obs.classes {
@@ -328,15 +341,15 @@ fn record<C: Serialize>(acc: &mut Acc, case: &C, obs: &Obs) {
         let fp = fnv1a(js.as_bytes());
         if acc.nontrivial.insert(fp) {
             if acc.samples_first.len() < 2 {
-                acc.samples_first.push(serde_json::from_str(&js).unwrap_or(Value::Null));
+                acc.samples_first.push(sample_value(&js));
             } else {
                 // deterministic reservoir of size 2 keyed on the fingerprint
                 acc.res_seen += 1;
                 if acc.samples_res.len() < 2 {
-                    acc.samples_res.push(serde_json::from_str(&js).unwrap_or(Value::Null));
+                    acc.samples_res.push(sample_value(&js));
                 } else if fp % acc.res_seen == 0 {
                     let k = (fp / 7) as usize % 2;
-                    acc.samples_res[k] = serde_json::from_str(&js).unwrap_or(Value::Null);
+                    acc.samples_res[k] = sample_value(&js);
                 }
             }
         }
